@@ -40,6 +40,44 @@ def flip1 (i : Nat) : List Bool := zeros i ++ [true] ++ zeros (111 - i)
 /-- exactly bits `i < j` of 112 -/
 def flip2 (i j : Nat) : List Bool := zeros i ++ pair (j - i) ++ zeros (111 - j)
 
+/-- `flip1 i` has exactly bit `i` set -/
+theorem flip1_spec (i k : Nat) (hi : i < 112) (hk : k < 112) : (flip1 i)[k]? = some (decide (k = i)) := by
+  simp only [flip1, zeros, List.append_assoc, List.getElem?_append, List.length_replicate,
+    List.getElem?_replicate, List.cons_append, List.nil_append]
+  by_cases h1 : k < i
+  · simp [h1]; omega
+  · simp only [h1, ↓reduceIte]
+    by_cases h2 : k = i
+    · subst h2; simp
+    · have : k - i = (k - i - 1) + 1 := by omega
+      rw [this, List.getElem?_cons_succ, List.getElem?_replicate]
+      simp [h2]; omega
+
+/-- `flip2 i j` has exactly bits `i` and `j` set -/
+theorem flip2_spec (i j k : Nat) (hij : i < j) (hj : j < 112) (hk : k < 112) :
+    (flip2 i j)[k]? = some (decide (k = i ∨ k = j)) := by
+  simp only [flip2, pair, zeros, List.append_assoc, List.getElem?_append, List.length_replicate,
+    List.getElem?_replicate, List.cons_append, List.nil_append]
+  by_cases h1 : k < i
+  · simp [h1]; omega
+  · simp only [h1, ↓reduceIte]
+    by_cases h2 : k = i
+    · subst h2; simp
+    · have : k - i = (k - i - 1) + 1 := by omega
+      rw [this, List.getElem?_cons_succ, List.getElem?_append, List.length_replicate, List.getElem?_replicate]
+      by_cases h3 : k < j
+      · have : k - i - 1 < j - i - 1 := by omega
+        simp [this]; omega
+      · have : ¬ k - i - 1 < j - i - 1 := by omega
+        simp only [this, ↓reduceIte]
+        by_cases h4 : k = j
+        · subst h4
+          have : k - i - 1 - (k - i - 1) = 0 := by omega
+          simp [this]
+        · have : k - i - 1 - (j - i - 1) = (k - j - 1) + 1 := by omega
+          rw [this, List.getElem?_cons_succ, List.getElem?_replicate]
+          simp [h2, h4]; omega
+
 /-! ## 1. The table -/
 
 /-- All 256 rows of `CRC_TABLE` are the parities `(i·x^24) mod G` of the single bytes.
@@ -310,5 +348,44 @@ theorem ap_recover (data : List Nat) (a : Nat) (hd : Bytes data) (ha : a < 2 ^ 2
           have h := hlast fs rfl
           obtain ⟨ini, rfl⟩ := List.getLast?_eq_some_iff.1 h
           simp [Fields.toObj, fld]
+
+/-! ## Satisfiability of the hypotheses (frames from the repository's own tests) -/
+
+/-- crc.rs `test_crc`, first frame: a valid DF17 transmission … -/
+example : ValidDF17 [0x8d,0x40,0x6b,0x90,0x20,0x15,0xa6,0x78,0xd4,0xd2,0x20,0xaa,0x4b,0xda] :=
+  ⟨by decide, by decide, by decide, by decide +kernel⟩
+
+/-- … which is accepted as DF17 … -/
+example : AcceptedDF17 [0x8d,0x40,0x6b,0x90,0x20,0x15,0xa6,0x78,0xd4,0xd2,0x20,0xaa,0x4b,0xda] := by
+  refine ⟨by decide, ?_⟩
+  have h : (tryFrom [0x8d,0x40,0x6b,0x90,0x20,0x15,0xa6,0x78,0xd4,0xd2,0x20,0xaa,0x4b,0xda]).isOk = true := by
+    decide +kernel
+  revert h
+  cases tryFrom [0x8d,0x40,0x6b,0x90,0x20,0x15,0xa6,0x78,0xd4,0xd2,0x20,0xaa,0x4b,0xda] with
+  | ok d => intro _; exact ⟨d, rfl⟩
+  | err e => intro h; cases h
+  | panic x => intro h; cases h
+
+/-- … while `test_invalid_crc`-style corruption of its last bit is not (instance of `single_bit`) -/
+example : corrupt [0x8d,0x40,0x6b,0x90,0x20,0x15,0xa6,0x78,0xd4,0xd2,0x20,0xaa,0x4b,0xda] (flip1 111)
+    = [0x8d,0x40,0x6b,0x90,0x20,0x15,0xa6,0x78,0xd4,0xd2,0x20,0xaa,0x4b,0xdb] := by decide +kernel
+
+/-- crc.rs `test_crc`: `a0000410bc900010a40000f5f477` (DF20) has remainder 11727682 -/
+example : modesChecksum [0xa0,0x00,0x04,0x10,0xbc,0x90,0x00,0x10,0xa4,0x00,0x00,0xf5,0xf4,0x77] 112
+    = .ok 11727682 := by decide +kernel
+
+/-- that frame *is* `encodeAP` of its first 11 bytes and the address 0xb2f342 = 11727682 -/
+example : encodeAP [0xa0,0x00,0x04,0x10,0xbc,0x90,0x00,0x10,0xa4,0x00,0x00] 11727682
+    = [0xa0,0x00,0x04,0x10,0xbc,0x90,0x00,0x10,0xa4,0x00,0x00,0xf5,0xf4,0x77] := by decide +kernel
+
+example : APShape [0xa0,0x00,0x04,0x10,0xbc,0x90,0x00,0x10,0xa4,0x00,0x00] := by
+  right; exact ⟨by decide, by decide⟩
+
+/-- and the model accepts it (the premise of `ap_recover`'s second clause is satisfiable) -/
+example : (tryFrom (encodeAP [0xa0,0x00,0x04,0x10,0xbc,0x90,0x00,0x10,0xa4,0x00,0x00] 11727682)).isOk = true := by
+  decide +kernel
+
+/-- a short one: DF4, altitude code 0x0518… any address -/
+example : (tryFrom (encodeAP [0x20,0x00,0x05,0x18] 0xabcdef)).isOk = true := by decide +kernel
 
 end Rs1090.Props.C02
